@@ -37,6 +37,7 @@ class Scn:
     driver: object = None        # fn(it, model) -> value: a composition of repository calls evaluated in one space (instead of func/args)
     strict_sizes: bool = False   # operands carry independent generic sizes: any further identification is a violation
     tier: str = "quick"          # "thorough": evaluated by the thorough command only (deeper concrete orders)
+    any_exception: bool = False  # must_raise scenarios: any exception satisfies the property (out-of-range positions: IndexError is fine)
     valid_operands: bool = False # the operands are assumed compatible (facts installed by `args`): a library exception on any path rejects a valid input
 
 
